@@ -1,8 +1,10 @@
 (** C09 — Message queues are exactly-once and FIFO.
     Only statements; model SGV.Kernel.MQueue (MessImpl::iput/iget, MessageQueueImpl::find_matching_message), proofs
     in SGV.Kernel.MQueueProofs.  A history [ops] is any sequence of put/get requests on one queue in the order the
-    kernel handles them (any number of actors; blocking, asynchronous and detached puts are the same request). *)
-From SGV Require Import Base.Tactics Kernel.MQueue Kernel.MQueueProofs.
+    kernel handles them (any number of actors; blocking, asynchronous and detached puts are the same request).
+    Second part: histories [xops] that also contain withdrawals of requests that are still queued (Mess::cancel(), or
+    the issuer ends / is killed with unmatched put_async/get_async: MessImpl::cancel -> MessageQueueImpl::remove). *)
+From SGV Require Import Base.Tactics Kernel.MQueue Kernel.MQueueProofs Kernel.MQueueWithdraw.
 Local Open Scope Z_scope.
 
 (* the pairs formed, in the order they are formed, are exactly: k-th put with k-th get *)
@@ -49,3 +51,110 @@ Example C09_nonvacuous :
   map (fun pg => (mid (fst pg), mid (snd pg))) (snd (qrun [] ops)) = [(2, 1); (3, 5)] /\
   map (fun e => mid (snd e)) (fst (qrun [] ops)) = [4].
 Proof. vm_compute. split; reflexivity. Qed.
+
+(** ---- histories with withdrawals ----
+    [XCancel ids] = cancel() called on the messages [ids] one after the other (one id for Mess::cancel(); all the
+    non-detached messages of an actor, in the arbitrary order of its activity set, when the actor ends or is killed).
+    Request ids are pairwise distinct (a request is one MessImpl object). *)
+
+(* one cancel step: exactly the named messages that are still queued leave the queue, the others keep their relative
+   order (filter), and the order of the cancels is irrelevant (the right-hand sides depend on [ids] as a set only) *)
+Theorem C09_cancel_exact : forall q ids, NoDup (qids q) ->
+  fst (cancel_all q ids) = filter (keep ids) q /\
+  (forall i, In i (snd (cancel_all q ids)) <-> In i ids /\ In i (qids q)).
+Proof. exact cancel_exact. Qed.
+Print Assumptions C09_cancel_exact.
+
+(* which requests are withdrawn over a whole history: those named by a cancel while they are queued *)
+Theorem C09_withdrawn_iff : forall xops, NoDup (req_ids xops) -> forall i,
+  In i (withdrawn xops) <->
+  exists pre ids post, xops = pre ++ XCancel ids :: post /\ In i ids /\ In i (qids (fst (fst (xrun [] pre)))).
+Proof. exact withdrawn_iff. Qed.
+Print Assumptions C09_withdrawn_iff.
+
+(* pairs formed and final queue are those of the history in which the withdrawn requests were never issued *)
+Theorem C09_withdrawn_as_never_issued : forall xops, NoDup (req_ids xops) ->
+  qrun [] (erase (withdrawn xops) xops) = fst (xrun [] xops).
+Proof. exact as_never_issued. Qed.
+Print Assumptions C09_withdrawn_as_never_issued.
+
+(* FIFO among the survivors: k-th surviving put with k-th surviving get, in the order the pairs are formed *)
+Theorem C09_withdraw_fifo : forall xops, NoDup (req_ids xops) ->
+  let w := withdrawn xops in
+  snd (fst (xrun [] xops)) = combine (surv w (xputs_of xops)) (surv w (xgets_of xops)).
+Proof. exact withdraw_fifo. Qed.
+Print Assumptions C09_withdraw_fifo.
+
+(* exactly-once for the requests that were not withdrawn (ordered lists: nothing duplicated, lost or reordered) *)
+Theorem C09_withdraw_exactly_once : forall xops, NoDup (req_ids xops) ->
+  let res := xrun [] xops in let w := withdrawn xops in
+  surv w (xputs_of xops) = map fst (snd (fst res)) ++ qpending true (fst (fst res)) /\
+  surv w (xgets_of xops) = map snd (snd (fst res)) ++ qpending false (fst (fst res)).
+Proof. exact withdraw_exactly_once. Qed.
+Print Assumptions C09_withdraw_exactly_once.
+
+Theorem C09_withdraw_homogeneous : forall xops, NoDup (req_ids xops) ->
+  let q := fst (fst (xrun [] xops)) in (forall e, In e q -> fst e = true) \/ (forall e, In e q -> fst e = false).
+Proof. exact withdraw_homogeneous. Qed.
+Print Assumptions C09_withdraw_homogeneous.
+
+Theorem C09_withdraw_final_queue : forall xops, NoDup (req_ids xops) ->
+  let w := withdrawn xops in let P := surv w (xputs_of xops) in let G := surv w (xgets_of xops) in
+  fst (fst (xrun [] xops)) = tagq true (skipn (length G) P) ++ tagq false (skipn (length P) G).
+Proof. exact withdraw_final_queue. Qed.
+Print Assumptions C09_withdraw_final_queue.
+
+(* on histories without withdrawals the extended step function is the one of the first part *)
+Theorem C09_xrun_conservative : forall ops q, xrun q (map XReq ops) = (qrun q ops, []).
+Proof. exact xrun_conservative. Qed.
+Print Assumptions C09_xrun_conservative.
+
+Theorem C09_xoracle_sound : forall xops obs, mq_xlog_ok xops obs = true ->
+  obs = flat_map (fun pg => [mid (snd pg); mpayload (fst pg)])
+          (combine (surv (withdrawn xops) (xputs_of xops)) (surv (withdrawn xops) (xgets_of xops))).
+Proof. exact xoracle_sound. Qed.
+Print Assumptions C09_xoracle_sound.
+Theorem C09_xoracle_is_model : forall xops, NoDup (req_ids xops) ->
+  expected_xlog xops = flat_map (fun pg => [mid (snd pg); mpayload (fst pg)]) (snd (fst (xrun [] xops))).
+Proof. exact xoracle_is_model. Qed.
+Print Assumptions C09_xoracle_is_model.
+
+(* puts 1..4 queued, the 2nd is cancelled with two queued behind it, then three gets: 1,3,4 in that order *)
+Example C09_withdraw_nonvacuous :
+  let xops := [XReq (QPut (mkMess 1 0 1)); XReq (QPut (mkMess 2 0 2)); XReq (QPut (mkMess 3 1 3)); XReq (QPut (mkMess 4 2 4));
+               XCancel [2]; XReq (QGet (mkMess 5 3 0)); XReq (QGet (mkMess 6 3 0)); XCancel [1; 6];
+               XReq (QGet (mkMess 7 3 0))] in
+  NoDup (req_ids xops) /\ withdrawn xops = [2] /\
+  map (fun pg => (mid (fst pg), mid (snd pg))) (snd (fst (xrun [] xops))) = [(1, 5); (3, 6); (4, 7)] /\
+  fst (fst (xrun [] xops)) = [].
+Proof.
+  cbv zeta. split; [|vm_compute; repeat split; reflexivity].
+  cbn [req_ids op_mess mid]. repeat (constructor; [cbn; lia|]). constructor.
+Qed.
+(* pending gets; an actor with gets 2 and 4 dies (its activity set is walked in address order: 4 before 2) *)
+Example C09_withdraw_gets_nonvacuous :
+  let xops := [XReq (QGet (mkMess 1 0 0)); XReq (QGet (mkMess 2 1 0)); XReq (QGet (mkMess 3 2 0)); XReq (QGet (mkMess 4 1 0));
+               XReq (QGet (mkMess 5 3 0)); XCancel [4; 2; 9]; XReq (QPut (mkMess 6 4 6)); XReq (QPut (mkMess 7 4 7));
+               XReq (QPut (mkMess 8 4 8)); XReq (QPut (mkMess 9 4 9))] in
+  NoDup (req_ids xops) /\ withdrawn xops = [4; 2] /\
+  map (fun pg => (mid (fst pg), mid (snd pg))) (snd (fst (xrun [] xops))) = [(6, 1); (7, 3); (8, 5)] /\
+  qids (fst (fst (xrun [] xops))) = [9].
+Proof.
+  cbv zeta. split; [|vm_compute; repeat split; reflexivity].
+  cbn [req_ids op_mess mid]. repeat (constructor; [cbn; lia|]). constructor.
+Qed.
+
+(** ---- hand-over of the payload (MessImpl::finish) ----
+    finish() runs once when the pair is formed and again for every later wait()/test() on the message; the payload is
+    written to the receive buffer by the first run only (repaired code: fix in KNOWN_FINDINGS.txt), so a variable filled by
+    a completed get is never written again.  The pinned code wrote it on every run. *)
+Theorem C09_delivered_once : forall n m, mo_done m = true -> mo_payload m <> 0 -> mo_dst m <> 0 ->
+  finish_n true (S n) m = [(mo_dst m, mo_payload m)].
+Proof. exact delivered_once. Qed.
+Print Assumptions C09_delivered_once.
+Theorem C09_delivered_once_pinned_refuted :
+  exists m, finish_n false 2 m = [(mo_dst m, mo_payload m); (mo_dst m, mo_payload m)].
+Proof. exact delivered_once_pinned_refuted. Qed.
+Print Assumptions C09_delivered_once_pinned_refuted.
+Example C09_delivered_once_nonvacuous : finish_n true 3 (mkMobj true 7 9) = [(9, 7)].
+Proof. vm_compute. reflexivity. Qed.
